@@ -9,16 +9,22 @@ SPEC = {
                   ('pkg/secretstore', 'harness/secretstore/zz_verif_c14_test.go')],
         'model_module': 'Model.C14_Push', 'imports': ['From Wesh Require Import Model.Store Model.C02_Ratchet.'],
         'shard': 60, 'timeout': 900,
+    }, {
+        'name': 'service', 'pkg': '.', 'test': 'TestVerifC14Service',
+        'files': [('.', 'harness/root/zz_verif_meta_common_test.go'),
+                  ('.', 'harness/root/zz_verif_c14svc_test.go')],
+        'model_module': 'Model.C14_Push', 'imports': ['From Wesh Require Import Model.Store Model.C02_Ratchet.'],
+        'shard': 60, 'timeout': 900, 'search_n': 300,
     }],
     'rule': 'window stream: UpdateOutOfStoreGroupReferences on a fresh store for counters below N, near 2^64 and random, probing the '
             'stored references at and around both window edges; session stream: random sessions on a real SecretStore mixing '
             'registration, log delivery (followed by the reference update MessageStore performs) and push delivery of the same '
             'messages in every order, 1-2 senders, three group types, windows 1-3 with 1-4 references and the defaults 100/100, '
-            'bit-flipped payloads and unknown group references; non-trivial = wrap-around window / every session; distinct = case term',
+            'bit-flipped payloads and unknown group references; service stream: the same sessions through service.OutOfStoreSeal on a sender node with a real message store, MessageStore.processMessage on the receiver (log path, which moves the reference window itself) and service.OutOfStoreReceive (replies incl. AlreadyReceived, cid, group key), with bit-flipped and structurally altered payloads (fields cut, removed, extended); non-trivial = wrap-around window / every session; distinct = case term',
     'trusted_base': [
         'Coq 8.16.1 kernel; vm_compute for evaluating the model on cases',
         'no axioms',
-        'harness/secretstore/zz_verif_c14_test.go',
+        'harness/secretstore/zz_verif_c14_test.go', 'harness/root/zz_verif_c14svc_test.go (hand-assembled service values around real stores)',
         'modelled, not verified: HKDF-SHA3 reference digest (symbolic: a reference is stored iff its counter is in the recorded window), '
         'secretbox, Ed25519, go-datastore',
     ],
